@@ -246,7 +246,7 @@ func genI64(r *vh.Rng) int64 {
 }
 
 func genAmount(r *vh.Rng) int64 {
-	switch r.Intn(10) {
+	switch r.Intn(11) {
 	case 0:
 		return 0
 	case 1:
@@ -267,6 +267,9 @@ func genAmount(r *vh.Rng) int64 {
 			v = -17
 		}
 		return v
+	case 7:
+		// the largest scale at which every operation exercised (incl. Multi(3) and sums of three) is still exact
+		return (int64(r.Range(1, 3)) << 48) + int64(r.Range(-3, 3))
 	default:
 		return int64(r.Range(0, 200))
 	}
